@@ -620,3 +620,23 @@ def a_raising_loop_raises_iff_some_element_is_bad(xs):
     except ValueError:
         return any(x < 0 for x in xs)
     return all(x >= 0 for x in xs)
+
+
+# --- integer arithmetic (Python floors, SMT-LIB div/mod are Euclidean) ---------------------------------------------------------
+@lemma(dict(a=Int(-7, 7), b=Int(-3, 3)), prop=["ENGINE"])
+def floor_division_and_modulo(a, b):
+    if b == 0:
+        try:
+            a // b
+        except ZeroDivisionError:
+            return True
+        return False
+    q = a // b
+    r = a % b
+    return q * b + r == a and (0 <= r < b if b > 0 else b < r <= 0)
+
+
+@lemma(dict(a=Int(-7, 7), b=Int(-3, 3)), prop=["ENGINE"])
+def arithmetic_and_comparisons(a, b):
+    return (a - b) + b == a and a * 2 == a + a and (a < b) == (b > a) and (a <= b) == (not a > b) \
+        and -(-a) == a
